@@ -2,6 +2,7 @@ package keeper
 
 import (
 	"fmt"
+	"sort"
 
 	keytypes "github.com/ExocoreNetwork/exocore/types/keys"
 	avstypes "github.com/ExocoreNetwork/exocore/x/avs/types"
@@ -9,7 +10,6 @@ import (
 	abci "github.com/cometbft/cometbft/abci/types"
 	cryptocodec "github.com/cosmos/cosmos-sdk/crypto/codec"
 	sdk "github.com/cosmos/cosmos-sdk/types"
-	stakingtypes "github.com/cosmos/cosmos-sdk/x/staking/types"
 	"github.com/ethereum/go-ethereum/common"
 	"github.com/ethereum/go-ethereum/common/hexutil"
 )
@@ -126,20 +126,31 @@ func (k Keeper) InitGenesis(
 func (k Keeper) ExportGenesis(ctx sdk.Context) *types.GenesisState {
 	genesis := types.DefaultGenesis()
 	genesis.Params = k.GetDogfoodParams(ctx)
-	validators := []types.GenesisValidator{}
-	k.IterateBondedValidatorsByPower(ctx, func(_ int64, val stakingtypes.ValidatorI) bool {
-		// #nosec G703 // already validated
-		pubKey, _ := val.ConsPubKey()
+	// export the validator set as stored by this module, that is, with the keys that are in
+	// effect until the end of the epoch. IterateBondedValidatorsByPower resolves a validator
+	// through the operator module and hence reports the operator's current key, which, for a
+	// key replaced during the epoch, is not yet the validator's.
+	prevList := k.GetAllExocoreValidators(ctx)
+	sort.SliceStable(prevList, func(i, j int) bool {
+		return prevList[i].Power > prevList[j].Power
+	})
+	validators := make([]types.GenesisValidator, 0, len(prevList))
+	for _, val := range prevList {
+		pubKey, err := val.ConsPubKey()
+		if err != nil {
+			// indicates an error in deserialization, and should never happen.
+			k.Logger(ctx).Error("error deserializing consensus public key", "error", err)
+			continue
+		}
 		// #nosec G703 // already validated
 		convKey, _ := cryptocodec.ToTmPubKeyInterface(pubKey)
 		validators = append(validators,
 			types.GenesisValidator{
 				PublicKey: hexutil.Encode(convKey.Bytes()),
-				Power:     val.GetConsensusPower(sdk.DefaultPowerReduction),
+				Power:     val.Power,
 			},
 		)
-		return false // stop == false => continue iteration
-	})
+	}
 	return types.NewGenesis(
 		k.GetDogfoodParams(ctx),
 		validators,
